@@ -369,8 +369,11 @@ def c09_oracle(w, netlist_idx, before):
     flat = elab.elaborate_flat(n)
     if flat['nonleaf']:
         bad.append('hierarchical instances remain after flatten: %s' % flat['nonleaf'][:3])
-    want = dict((tuple(str(x) for x in p), v) for p, v in before['leaves'].items())
-    got = dict((tuple(str(x) for x in p), v) for p, v in flat['leaves'].items())
+    # the property names a leaf by its slash-joined path: compare the joined strings (a name may itself contain '/')
+    def joined(p):
+        return '/'.join(str(x) for x in p)
+    want = dict((joined(p), v) for p, v in before['leaves'].items())
+    got = dict((joined(p), v) for p, v in flat['leaves'].items())
     if want != got:
         bad.append('leaf instances after flatten differ from the leaf occurrences before: missing %s extra %s' % (
             sorted(set(want) - set(got))[:3], sorted(set(got) - set(want))[:3]))
@@ -378,7 +381,7 @@ def c09_oracle(w, netlist_idx, before):
     def norm(nets):
         out = set()
         for g in nets:
-            out.add(frozenset((e[0], tuple(str(x) for x in e[1])) + tuple(e[2:]) if e[0] == 'leaf' else e for e in g))
+            out.add(frozenset((e[0], joined(e[1])) + tuple(e[2:]) if e[0] == 'leaf' else e for e in g))
         return out
     if norm(before['nets']) != norm(flat['nets']):
         bad.append('endpoint partition after flatten differs from the elaboration before')
@@ -475,6 +478,13 @@ def run_case(prop, seed, case):
             if bad:
                 fails.append({'step': len(hist) - 1, 'oracle': 'Uniquify', 'failures': bad[:6]})
             return dict(ops=hist, dumps=dumps, fails=fails, kind='depth%d' % len(info['layers']))
+        if prop == 'C09' and mids and rng.random() < 0.3:
+            # a child whose own name already looks like a path below its parent instance ("u1/q" inside u1)
+            d = rng.choice(mids)
+            users = [x for kids in info['children'].values() for (x, ref) in kids if ref == d and w.objs[x].name]
+            if users and info['children'].get(d):
+                c = rng.choice(info['children'][d])[0]
+                do(['setname', str(c), netgen.tok_of_s(w.objs[rng.choice(users)].name + '/q')])
         before = elab.elaborate(n)
         out = do(['flatten', str(nl), FUEL])
         if out != 'ok':
